@@ -185,6 +185,18 @@ def gen_cases(rng, tier):
         cases.append(["conn%d" % j, "c16", "conn", "in" if incoming else "out", ";".join(g + tail)])
     for j, g in enumerate(("frame,close", "close", "clone,frame,close;adv:100", "garbage", "frame,garbage;adv:5", "frame;adv:31000;close", "select,close", "frame,frame,close;select")):
         cases.append(["connx%d" % j, "c16", "conn", "out", g + ";drop,drop,drop,drop;adv:70000"])
+    # client transactions whose final response is replayed by the peer (lost ACKs, or a peer that keeps sending it): the entry is gone
+    # when the transaction's own timer has run out (timer D / K counted once from the first final), replays do not hold it
+    P05 = importlib.import_module("props.c05")
+    j = 0
+    for kind, code, win in (("inv", 486, 32000), ("inv", 603, 32000), ("ni", 200, 5000), ("ni", 404, 5000)):
+        for t in (1, 700):
+            for gap in (win // 2, win - 1000):
+                arrs = [(t, code, "a")] + [(t + k * gap, code, "a") for k in range(1, 5)]
+                c = P05._case("cli%d" % j, kind, 0, arrs)
+                te = t + win
+                c[7] = ",".join(str(x) for x in (te + 1, te + 2 * gap + 1))
+                cases.append([c[0], "c16", "cli"] + c[2:]); j += 1
     # usages registered (free function register_usage) for dialogs that do not exist any more / never did: no entry may appear
     for j, (setup, evs) in enumerate((("C:1", "K:1"), ("C:1", "K:10"), ("S:7:1", "K:4,D:0:0,K:4"), ("C:1,S:3:2", "K:2,U:0,K:2"))):
         cases.append(["stale%d" % j, "c16", "stale", setup, evs])
@@ -246,6 +258,10 @@ def normalize_impl(case, s):
     if case[2] == "srv":
         m = re.search(r"tsx=(\d+)", s)
         return "quiesced=tsx%s/tp0/dlg0/backlog0/cancel0" % (m.group(1) if m else "?")
+    if case[2] == "cli":
+        te = int(case[5].split(":")[0]) + (32000 if case[3] == "inv" else 5000)
+        probes = [(t, n) for t, n in re.findall(r"N@(\d+):(\d+)", s) if int(t) > te]
+        return "quiesced=tsx%s/tp0/dlg0/backlog0/cancel0" % (max([int(n) for _, n in probes]) if probes else "?")
     if case[2] == "stale":
         m = re.search(r"B=(\d+)/(\d+)", s)
         nd = len(case[3].split(","))
@@ -269,6 +285,17 @@ def oracle(case, impl):
             return ["no observation: " + impl[:200]]
         if m.group(1) != "0" or m.group(2) != "0":
             out.append("STUN transaction entry outlives the call (%s): pending=%s after the call returned, %s later" % (case[6], m.group(1), m.group(2)))
+        return out
+    if case[2] == "cli":
+        probes = re.findall(r"N@(\d+):(\d+)", impl)
+        if not probes:
+            return ["no probe output: " + impl[:200]]
+        te = int(case[5].split(":")[0]) + (32000 if case[3] == "inv" else 5000)
+        for t, n in probes:
+            if int(t) > te and n != "0":
+                out.append("client transaction (%s, final response at %s ms, replayed): %s table entr%s at %s ms, after its timer had run out" % (
+                    "INVITE" if case[3] == "inv" else "non-INVITE", case[5].split(":")[0], n, "y" if n == "1" else "ies", t))
+                break
         return out
     if case[2] == "stale":
         m = re.search(r"B=(\d+)/(\d+)", impl)
@@ -337,7 +364,7 @@ def nontrivial(case, impl):
         return case[3]
     if case[2] == "conn":
         return case[3] + case[4]
-    if case[2] in ("srv", "stale"):
+    if case[2] in ("srv", "stale", "cli"):
         return "|".join(case[3:])
     return case[5]
 
@@ -349,7 +376,7 @@ def distribution(cases, impl):
         if x[2] == "tsx":
             for it in x[3].split(","):
                 c["tsx:" + it.split(":")[1]] += 1
-        elif x[2] in ("conn", "srv", "stale"):
+        elif x[2] in ("conn", "srv", "stale", "cli"):
             pass
         elif x[2] == "ua":
             c["ua:" + x[0].split("-")[1]] += 1
